@@ -354,7 +354,13 @@ func ruleClosersClosed(r *Report, rule string, pkgFilter func(rel string) bool, 
 					pos = h.Exit.B.Nodes[k-1].Pos()
 				}
 				h.Key = h.Key[:strings.Index(h.Key, "@")]
-				if why, ok := allow[bu.Name+"/"+h.Key]; ok {
+				acqName := ""
+				if as, ok := h.Acq.(*ast.AssignStmt); ok && len(as.Rhs) == 1 {
+					if ce, ok := as.Rhs[0].(*ast.CallExpr); ok {
+						acqName = calleeShortName(info, ce)
+					}
+				}
+				if why, ok := allow[bu.Name+"/"+acqName]; ok {
 					r.Allow(rule, bu.Name+"/"+h.Key, pos, why)
 					continue
 				}
